@@ -172,7 +172,7 @@ def gen_case(rng, tier):
                     texts.append(t if not t.startswith('[') else '[ ' + t[1:-1] + ' ]')
             invs.append({'forms': forms, 'texts': texts})
             continue
-        for k in kinds:
+        for pos, k in enumerate(kinds):
             if k in ('reg', 'rega'):
                 r = gen.rcase(rng, 'a' if k == 'rega' else rng.choice(REGS))
                 forms.append({'f': 'plain', 'e': ('label', r)})
@@ -183,6 +183,8 @@ def gen_case(rng, tier):
                                    ('label', 'kone')] +
                                   # a character literal is an operand text too (not inside [ ]: the bracket pattern admits no quote)
                                   ([('char', rng.choice(['@', '@', 'A', '#', '(', '$']))] * 2 if k == 'num' else []))
+                if atom[0] == 'char' and any(f'[@ARG({pos})' in t for y in mac_y for t in y['instructions']):
+                    atom = ('num', ord(atom[1]))       # a step would put the literal inside [ ]
                 if twin and rng.random() < 0.7:
                     atom = rng.choice([('label', 'kone'), ('label', 'ktwo')])
                 t = str(atom[1]) if atom[0] != 'char' else "'" + atom[1] + "'"
